@@ -173,13 +173,21 @@ def do_check(unit, check, cfile, sdir, known, verbose=False):
             if rc != 0:
                 return 'goto-cc failed (lowered text does not compile as C): ' + out.strip().splitlines()[-1][:300] if out.strip() else 'goto-cc failed'
             target = gb
+            if kind == 'dfcc' and 'unwind' in check:
+                # loops without contracts (constant bounds) must be unwound BEFORE dfcc instrumentation
+                gbu = gb + '.u.gb'
+                cmd = ['goto-instrument', '--unwind', str(check['unwind']), '--unwinding-assertions', gb, gbu]
+                rc, out, _ = run_cmd(cmd, 300, log=log)
+                if rc != 0:
+                    return 'goto-instrument --unwind failed: ' + out.strip()[-300:]
+                gb = gbu
             if kind == 'dfcc':
                 cmd = ['goto-instrument', '--dfcc', check['entry']]
                 for f in check.get('enforce', []):
                     cmd += ['--enforce-contract', f]
                 for f in check.get('replace', []):
                     cmd += ['--replace-call-with-contract', f]
-                if check.get('loops', 0) or check.get('loop_contracts', True):
+                if check.get('loops', 0) or (check.get('loop_contracts', True) and 'unwind' not in check):
                     cmd += ['--apply-loop-contracts']
                 cmd += check.get('instrument_flags', [])
                 cmd += [gb, gb2]
@@ -190,8 +198,6 @@ def do_check(unit, check, cfile, sdir, known, verbose=False):
                 target = gb2
             cmd = ['cbmc', target] + check.get('cbmc_flags', DEFAULT_FLAGS) + check.get('extra_flags', [])
             if kind == 'cbmc' and 'unwind' in check:
-                cmd += ['--unwind', str(check['unwind']), '--unwinding-assertions']
-            if kind == 'dfcc' and 'unwind' in check:
                 cmd += ['--unwind', str(check['unwind']), '--unwinding-assertions']
             cmd += cbmc_backend_flags(check)
         elif kind == 'cpp':
@@ -228,6 +234,9 @@ def do_check(unit, check, cfile, sdir, known, verbose=False):
         real = [p for p in props if p not in can and p not in unw]
         return can, unw, real
 
+    if kind == 'dfcc' and len(check.get('enforce', [])) != 1:
+        r.reason = 'a dfcc check must enforce exactly one contract (goto-instrument silently ignores all but the first --enforce-contract)'
+        return r
     res = one_pass([], '')
     if isinstance(res, str):
         r.reason = res
@@ -252,6 +261,11 @@ def do_check(unit, check, cfile, sdir, known, verbose=False):
     if kind == 'dfcc' and check.get('loops', 0) and r.loop_steps < check['loops']:
         r.reason = 'vacuity guard: %d loop-invariant step obligations, expected >= %d (loop contract silently dropped?)' % (r.loop_steps, check['loops'])
         return r
+    if kind == 'dfcc':
+        fn0 = check['enforce'][0]
+        if not [p for p in real if p['id'].startswith(fn0 + '.')]:
+            r.reason = 'vacuity guard: no obligation was generated inside the enforced function ' + fn0
+            return r
     r.instantiations = len([p for p in real if 'instantiation index in range' in p['desc']])
     if len(real) < check.get('min_obligations', 1):
         r.reason = 'vacuity guard: only %d obligations generated, unit expects >= %d' % (len(real), check.get('min_obligations', 1))
@@ -394,8 +408,9 @@ def main(argv):
     t0 = time.time()
     known = load_known()
     units = load_units()
-    sdir = os.path.join(VERIF, 'scratch', '%s-%s-%d' % (pid, tier, os.getpid()))
-    os.makedirs(sdir, exist_ok=True)
+    os.makedirs(os.path.join(VERIF, 'scratch'), exist_ok=True)
+    import tempfile
+    sdir = tempfile.mkdtemp(prefix='%s-%s-' % (pid, tier), dir=os.path.join(VERIF, 'scratch'))
     os.makedirs(os.path.join(VERIF, 'replay'), exist_ok=True)
     os.makedirs(os.path.join(VERIF, 'evidence'), exist_ok=True)
 
